@@ -265,3 +265,21 @@ GENERATORS.update({
     'nbdime.diffing.snakes.compute_snakes_multilevel': gen_snakes_multilevel,
     'nbdime.diffing.snakes.compute_snakes_multilevel#rect': gen_snakes_multilevel_rect,
 })
+
+
+def gen_patch():
+    "typed values (lists, dicts, strings, nested) with diffs produced for them and with hand-made ill-formed ones"
+    from nbdime import diff
+    from nbdime.diff_format import op_patch, op_addrange, op_removerange, op_add
+    vals = [[], [0], [0, 1], [[0], {'a': 0}], {}, {'a': 0}, {'a': [0], 'b': 'x\n'}, {'a': {'k': 1}}, '', 'x\ny\n', 'x\nz']
+    for a in vals:
+        for b in vals:
+            if type(a) is type(b):
+                yield [copy.deepcopy(a), diff(a, b)]
+        # ill-formed for a: must be skipped by the precondition
+        yield [copy.deepcopy(a), [op_removerange(5, 1)]]
+        yield [copy.deepcopy(a), [op_add('zz', 1), op_add('zz', 2)]]
+    yield [0, []]
+
+
+GENERATORS['nbdime.patching.patch'] = gen_patch
